@@ -363,8 +363,8 @@ def configs(tier, seed):
             for steps in ("scalar", "array"):
                 out.append({"id": "pdhg-fixed:%s:g=%s:%s:plain" % (A, g, steps), "h": "pdhg", "A": A, "g": g, "steps": steps, "mode": "plain", "what": "fixed",
                             "max_paths": 3000})
-                if A != "a1" and g in ("l1", "box"):
-                    continue        # metric lemma with a thresholded prox beyond 1x1: > 1 h
+                if A != "a1" and (g in ("l1", "box") or (g == "l2" and steps == "array")):
+                    continue        # metric lemma beyond 1x1 with a thresholded prox (> 1 h) / l2 with array steps (`unknown`)
                 out.append({"id": "pdhg-metric:%s:g=%s:%s" % (A, g, steps), "h": "pdhg", "A": A, "g": g, "steps": steps, "mode": "plain", "what": "metric",
                             "max_paths": 3000, "cost": 50})
             for mode in ("gamma_primal", "gamma_dual"):
